@@ -1,4 +1,5 @@
 import GrafeoModel.Proofs.Algo2Lemmas
+import GrafeoModel.Proofs.Algo2Kahn
 /-!
 C19, stream `alg2` — theorems about the executable models of the algorithms' own code
 (`Model/Algo2.lean`; the driver runs exactly these `def`s).
@@ -266,6 +267,419 @@ theorem c19a_components_exact (n : Nat) (es : List Edge)
     rcases mem_sym.mp he with h1 | h1
     · exact ⟨(wf _ h1).1, Or.inl ⟨w, h1⟩⟩
     · exact ⟨(wf _ h1).2, Or.inr ⟨w, h1⟩⟩
+
+/-! ### Kahn topological sort -/
+
+/-- **F (Kahn, soundness, any initial stack)**: for every graph with edges between nodes `< n` and
+every duplicate-free initial stack of nodes of in-degree 0 (the real code takes them in hash-map
+iteration order — any order is covered), an order returned by the model of `topological_sort` is
+accepted by the proved-sound checker `checkTopo`: a permutation of `0..n-1` in which every edge
+goes forward (`c19_topo_sound`). No fuel assumption is needed: the final `len == n` test rejects
+an incomplete run. -/
+theorem c19a_kahn_sound (n : Nat) (es : List Edge) (wf : ∀ e ∈ es, e.1 < n ∧ e.2.1 < n)
+    (init order : List Nat) (hin : init.Nodup)
+    (hi0 : ∀ v ∈ init, v < n ∧ get0 (inDegrees n es) v = 0)
+    (h : kahnFrom n es init = some order) : checkTopo es n order = true := by
+  unfold kahnFrom at h
+  by_cases hn : n = 0
+  · subst hn
+    simp only [beq_self_eq_true, if_true, Option.some.injEq] at h
+    subst h
+    have : es = [] := by
+      cases es with
+      | nil => rfl
+      | cons e t => exact absurd (wf e (by simp)).1 (Nat.not_lt_zero _)
+    subst this
+    simp [checkTopo]
+  · have hb : (n == 0) = false := by simpa using hn
+    simp only [hb, Bool.false_eq_true, if_false] at h
+    obtain ⟨hlen, hex⟩ := inDegrees_spec n es wf
+    have inv0 : KInv es n (inDegrees n es) init [] := by
+      refine ⟨hlen, hex, by simpa using hin, hi0, by simp, by simp⟩
+    obtain ⟨k1, k2, k3⟩ := kahnLoop_spec es n wf (n + 1) _ _ _ inv0
+    split at h
+    · rename_i hl
+      simp only [Option.some.injEq] at h
+      subst h
+      have hl' : (kahnLoop es (n + 1) (inDegrees n es) init []).length = n := by simpa using hl
+      have full := fun v hv => nodup_full k1 k2 hl' (v := v) hv
+      simp only [checkTopo, Bool.and_eq_true, decide_eq_true_eq, List.all_eq_true,
+        List.mem_range, List.contains_iff_mem]
+      refine ⟨⟨⟨k1, k2⟩, full⟩, ?_⟩
+      intro e he
+      exact (k3 e he (full _ (wf e he).2)).2
+    · cases h
+
+/-- the model's own initial stack (ascending node order) satisfies the hypotheses -/
+theorem c19a_kahn_accepted (n : Nat) (es : List Edge) (wf : ∀ e ∈ es, e.1 < n ∧ e.2.1 < n)
+    (order : List Nat) (h : kahn n es = some order) : checkTopo es n order = true := by
+  refine c19a_kahn_sound n es wf (kahnInit n (inDegrees n es)) order ?_ ?_ h
+  · unfold kahnInit
+    unfold List.Nodup
+    rw [List.pairwise_reverse]
+    exact ((List.nodup_range (n := n)).imp (fun h => Ne.symm h)).filter _
+  · intro v hv
+    unfold kahnInit at hv
+    simp only [List.mem_reverse, List.mem_filter, List.mem_range, beq_iff_eq] at hv
+    refine ⟨hv.1, ?_⟩
+    have hl := (inDegrees_spec n es wf).1
+    unfold get0
+    have : v < (inDegrees n es).length := by rw [hl]; exact hv.1
+    have e1 : (inDegrees n es).getD v 1 = (inDegrees n es)[v] := by
+      simp [List.getD_eq_getElem?_getD, this]
+    have e0 : (inDegrees n es).getD v 0 = (inDegrees n es)[v] := by
+      simp [List.getD_eq_getElem?_getD, this]
+    rw [e0, ← e1]; exact hv.2
+
+theorem kahnInit_spec (n : Nat) (es : List Edge) (wf : ∀ e ∈ es, e.1 < n ∧ e.2.1 < n) (v : Nat) :
+    v ∈ kahnInit n (inDegrees n es) ↔ v < n ∧ get0 (inDegrees n es) v = 0 := by
+  unfold kahnInit
+  simp only [List.mem_reverse, List.mem_filter, List.mem_range, beq_iff_eq]
+  constructor
+  · rintro ⟨h1, h2⟩
+    refine ⟨h1, ?_⟩
+    have hl := (inDegrees_spec n es wf).1
+    have : v < (inDegrees n es).length := by rw [hl]; exact h1
+    unfold get0
+    have e1 : (inDegrees n es).getD v 1 = (inDegrees n es)[v] := by
+      simp [List.getD_eq_getElem?_getD, this]
+    have e0 : (inDegrees n es).getD v 0 = (inDegrees n es)[v] := by
+      simp [List.getD_eq_getElem?_getD, this]
+    rw [e0, ← e1]; exact h2
+  · rintro ⟨h1, h2⟩
+    refine ⟨h1, ?_⟩
+    have hl := (inDegrees_spec n es wf).1
+    have : v < (inDegrees n es).length := by rw [hl]; exact h1
+    unfold get0 at h2
+    have e1 : (inDegrees n es).getD v 1 = (inDegrees n es)[v] := by
+      simp [List.getD_eq_getElem?_getD, this]
+    have e0 : (inDegrees n es).getD v 0 = (inDegrees n es)[v] := by
+      simp [List.getD_eq_getElem?_getD, this]
+    rw [e1, ← e0]; exact h2
+
+/-- **F (Kahn, `None`)**: when the model of `topological_sort` reports a cycle, the nodes it placed
+(`res`, fewer than `n`) leave a non-empty rest in which every node has an in-edge from the rest —
+so no topological order can continue, and following such in-edges backwards must repeat a node.
+(The last step, extracting the closed walk `Cyclic es`, is not formalised; the stream certifies a
+concrete cycle per line with `checkCycle`.) The fuel `n + 1` is shown to suffice. -/
+theorem c19a_kahn_none_stuck (n : Nat) (es : List Edge) (wf : ∀ e ∈ es, e.1 < n ∧ e.2.1 < n)
+    (h : kahn n es = none) :
+    ∃ res : List Nat, res.Nodup ∧ (∀ v ∈ res, v < n) ∧ res.length < n ∧
+      ∀ v, v < n → v ∉ res → ∃ e ∈ es, e.2.1 = v ∧ e.1 ∉ res := by
+  unfold kahn kahnFrom at h
+  by_cases hn : (n == 0) = true
+  · simp [hn] at h
+  · simp only [hn, Bool.false_eq_true, if_false] at h
+    obtain ⟨hlen, hex⟩ := inDegrees_spec n es wf
+    have inv0 : KInv es n (inDegrees n es) (kahnInit n (inDegrees n es)) [] := by
+      refine ⟨hlen, hex, ?_, fun v hv => (kahnInit_spec n es wf v).mp hv, by simp, by simp⟩
+      simp only [List.nil_append]
+      unfold kahnInit List.Nodup
+      rw [List.pairwise_reverse]
+      exact ((List.nodup_range (n := n)).imp (fun h => Ne.symm h)).filter _
+    have hc0 : KComp n (inDegrees n es) (kahnInit n (inDegrees n es)) [] :=
+      fun v hv _ h0 => (kahnInit_spec n es wf v).mpr ⟨hv, h0⟩
+    obtain ⟨k1, k2, _⟩ := kahnLoop_spec es n wf (n + 1) _ _ _ inv0
+    have stuck := kahnLoop_stuck es n wf (n + 1) _ _ _ inv0 hc0 (by simp)
+    split at h
+    · cases h
+    · rename_i hl
+      have hle := nodup_length_le _ (List.range n) k1 (fun x hx => List.mem_range.mpr (k2 x hx))
+      simp only [List.length_range] at hle
+      have hne : (kahnLoop es (n + 1) (inDegrees n es) (kahnInit n (inDegrees n es)) []).length ≠ n := by
+        simpa using hl
+      refine ⟨_, k1, k2, by omega, ?_⟩
+      intro v hv hvr
+      have := stuck v hv hvr
+      unfold inE at this
+      obtain ⟨e, he, hp⟩ := List.countP_pos_iff.mp this
+      simp only [Bool.and_eq_true, beq_iff_eq, Bool.not_eq_true', List.contains_eq_mem,
+        decide_eq_false_iff_not] at hp
+      exact ⟨e, he, hp.1, hp.2⟩
+
+/-! ### Kruskal -/
+
+/-- a forest, built edge by edge: every new edge joins two nodes that were not yet connected
+(so no edge ever closes a cycle) -/
+inductive Forest : List Edge → Prop
+  | nil : Forest []
+  | snoc {t : List Edge} {e : Edge} : Forest t → ¬ Reach (sym t) e.1 e.2.1 → Forest (t ++ [e])
+
+theorem find2_same {n : Nat} {u : UF} (inv : UFInv n u) (x y : Nat) :
+    UFInv n ((u.find x).1.find y).1 ∧
+    (∀ a b, Same ((u.find x).1.find y).1.parent a b ↔ Same u.parent a b) ∧
+    ((u.find x).2 = ((u.find x).1.find y).2 ↔ Same u.parent x y) := by
+  obtain ⟨rx, hrx, ex, inv1, eq1⟩ := find_spec inv x
+  obtain ⟨ry, hry, ey, inv2, eq2⟩ := find_spec inv1 y
+  have hry' : Rep u.parent y ry := (eq1 y ry).mpr hry
+  refine ⟨inv2, ?_, ?_⟩
+  · intro a b
+    constructor
+    · rintro ⟨r, h1, h2⟩
+      exact ⟨r, (eq1 a r).mpr ((eq2 a r).mpr h1), (eq1 b r).mpr ((eq2 b r).mpr h2)⟩
+    · rintro ⟨r, h1, h2⟩
+      exact ⟨r, (eq2 a r).mp ((eq1 a r).mp h1), (eq2 b r).mp ((eq1 b r).mp h2)⟩
+  · rw [ex, ey]
+    constructor
+    · intro e; subst e; exact ⟨rx, hrx, hry'⟩
+    · rintro ⟨r, h1, h2⟩
+      have := h1.func hrx
+      have := h2.func hry'
+      omega
+
+theorem reach_sym_mono {t t' : List Edge} (h : ∀ e ∈ t, e ∈ t') {a b : Nat}
+    (hr : Reach (sym t) a b) : Reach (sym t') a b := by
+  obtain ⟨c, hw⟩ := hr
+  refine ⟨c, Walk.mono ?_ hw⟩
+  intro e he
+  obtain ⟨x, y, w⟩ := e
+  rcases mem_sym.mp he with h1 | h1
+  · exact mem_sym.mpr (Or.inl (h _ h1))
+  · exact mem_sym.mpr (Or.inr (h _ h1))
+
+/-- the loop of `kruskal`: the chosen edges stay a forest of input edges whose classes are the
+union-find classes; unless the `n - 1` break fired, every scanned edge ends up inside one tree -/
+theorem kruskalLoop_spec (n : Nat) : ∀ (edges : List Edge) (u : UF) (mst : List Edge) (tot : Int),
+    UFInv n u → (∀ a b, Same u.parent a b ↔ Reach (sym mst) a b) → Forest mst →
+    (∀ e ∈ edges, e.1 < n ∧ e.2.1 < n) →
+    Forest (kruskalLoop n u edges mst tot).1 ∧
+    (∀ f ∈ (kruskalLoop n u edges mst tot).1, f ∈ mst ∨ f ∈ edges) ∧
+    (∀ f ∈ mst, f ∈ (kruskalLoop n u edges mst tot).1) ∧
+    ((kruskalLoop n u edges mst tot).1.length ≠ n - 1 →
+      ∀ f ∈ edges, Reach (sym (kruskalLoop n u edges mst tot).1) f.1 f.2.1) := by
+  intro edges
+  induction edges with
+  | nil =>
+    intro u mst tot _ _ hf _
+    simp only [kruskalLoop]
+    exact ⟨hf, fun f h => Or.inl h, fun f h => h, fun _ f h => by cases h⟩
+  | cons e rest ih =>
+    intro u mst tot inv hcls hf hr
+    have he := hr e (by simp)
+    have hrest : ∀ f ∈ rest, f.1 < n ∧ f.2.1 < n := fun f h => hr f (List.mem_cons_of_mem _ h)
+    obtain ⟨inv2, same2, hdec⟩ := find2_same inv e.1 e.2.1
+    by_cases hsame : Same u.parent e.1 e.2.1
+    · -- skipped
+      have hne : ((u.find e.1).2 != ((u.find e.1).1.find e.2.1).2) = false := by
+        simpa using hdec.mpr hsame
+      have hk : kruskalLoop n u (e :: rest) mst tot =
+          kruskalLoop n ((u.find e.1).1.find e.2.1).1 rest mst tot := by
+        simp only [kruskalLoop, hne]; simp
+      rw [hk]
+      obtain ⟨h1, h2, h3, h4⟩ := ih _ mst tot inv2 (fun a b => (same2 a b).trans (hcls a b)) hf hrest
+      refine ⟨h1, ?_, h3, ?_⟩
+      · intro f hfm
+        rcases h2 f hfm with h | h
+        · exact Or.inl h
+        · exact Or.inr (List.mem_cons_of_mem _ h)
+      · intro hl f hfm
+        rcases List.mem_cons.mp hfm with h | h
+        · subst h
+          exact reach_sym_mono h3 ((hcls _ _).mp hsame)
+        · exact h4 hl f h
+    · -- taken
+      have hne : ((u.find e.1).2 != ((u.find e.1).1.find e.2.1).2) = true := by
+        simpa using fun h => hsame (hdec.mp h)
+      obtain ⟨inv3, hm⟩ := union_spec inv2 e.1 e.2.1 he.1 he.2
+      have hnr : ¬ Reach (sym mst) e.1 e.2.1 := fun h => hsame ((hcls _ _).mpr h)
+      have hf' : Forest (mst ++ [e]) := Forest.snoc hf hnr
+      have hcls' : ∀ a b, Same ((((u.find e.1).1.find e.2.1).1.union e.1 e.2.1).1).parent a b ↔
+          Reach (sym (mst ++ [e])) a b := by
+        intro a b
+        have := reach_sym_snoc mst e.1 e.2.1 e.2.2 a b
+        rw [hm a b, this]
+        simp only [same2, hcls]
+      have hee : Reach (sym (mst ++ [e])) e.1 e.2.1 :=
+        ⟨_, Walk.single (w := e.2.2) (mem_sym.mpr (Or.inl (by simp)))⟩
+      by_cases hbrk : ((mst ++ [e]).length == n - 1) = true
+      · have hk : kruskalLoop n u (e :: rest) mst tot = (mst ++ [e], tot + e.2.2) := by
+          simp only [kruskalLoop, hne, if_true, hbrk]
+        rw [hk]
+        refine ⟨hf', ?_, fun f h => List.mem_append_left _ h, ?_⟩
+        · intro f hfm
+          rcases List.mem_append.mp hfm with h | h
+          · exact Or.inl h
+          · exact Or.inr (List.mem_cons.mpr (Or.inl (by simpa using h)))
+        · intro hl
+          exact absurd (by simpa using hbrk) hl
+      · have hk : kruskalLoop n u (e :: rest) mst tot =
+            kruskalLoop n (((u.find e.1).1.find e.2.1).1.union e.1 e.2.1).1 rest (mst ++ [e])
+              (tot + e.2.2) := by
+          simp only [kruskalLoop, hne, if_true, hbrk]; simp
+        rw [hk]
+        obtain ⟨h1, h2, h3, h4⟩ := ih _ (mst ++ [e]) (tot + e.2.2) inv3 hcls' hf' hrest
+        refine ⟨h1, ?_, fun f h => h3 f (List.mem_append_left _ h), ?_⟩
+        · intro f hfm
+          rcases h2 f hfm with h | h
+          · rcases List.mem_append.mp h with h | h
+            · exact Or.inl h
+            · exact Or.inr (List.mem_cons.mpr (Or.inl (by simpa using h)))
+          · exact Or.inr (List.mem_cons_of_mem _ h)
+        · intro hl f hfm
+          rcases List.mem_cons.mp hfm with h | h
+          · subst h
+            exact reach_sym_mono h3 hee
+          · exact h4 hl f h
+
+theorem mem_insW {e f : Edge} : ∀ {l : List Edge}, f ∈ insW e l ↔ f = e ∨ f ∈ l := by
+  intro l
+  induction l with
+  | nil => simp [insW]
+  | cons x xs ih =>
+    simp only [insW]
+    split
+    · simp
+    · simp only [List.mem_cons, ih]
+      constructor
+      · rintro (h | h | h)
+        · exact Or.inr (Or.inl h)
+        · exact Or.inl h
+        · exact Or.inr (Or.inr h)
+      · rintro (h | h | h)
+        · exact Or.inr (Or.inl h)
+        · exact Or.inl h
+        · exact Or.inr (Or.inr h)
+
+theorem mem_sortW {f : Edge} {l : List Edge} : f ∈ sortW l ↔ f ∈ l := by
+  unfold sortW
+  have : ∀ (l acc : List Edge), f ∈ l.foldl (fun acc e => insW e acc) acc ↔ f ∈ acc ∨ f ∈ l := by
+    intro l
+    induction l with
+    | nil => intro acc; simp
+    | cons x xs ih =>
+      intro acc
+      simp only [List.foldl_cons, ih, mem_insW, List.mem_cons]
+      constructor
+      · rintro ((h | h) | h)
+        · exact Or.inr (Or.inl h)
+        · exact Or.inl h
+        · exact Or.inr (Or.inr h)
+      · rintro (h | h | h)
+        · exact Or.inl (Or.inr h)
+        · exact Or.inl (Or.inl h)
+        · exact Or.inr h
+  simpa using this l []
+
+theorem mem_edgesByNode {n : Nat} {es : List Edge} {f : Edge} :
+    f ∈ edgesByNode n es ↔ f.1 < n ∧ f ∈ es := by
+  unfold edgesByNode outEdges
+  simp only [List.mem_flatMap, List.mem_range, List.mem_filter, beq_iff_eq]
+  constructor
+  · rintro ⟨u, hu, hf, e⟩; exact ⟨e ▸ hu, hf⟩
+  · rintro ⟨h1, h2⟩; exact ⟨f.1, h1, h2, rfl⟩
+
+/-- **F (Kruskal, forest)**: for every graph with edges between nodes `< n`, the edges chosen by
+the model of `kruskal` (sort + union-find, with the `n - 1` break) are input edges and form a
+forest: each one joined two nodes not connected by the edges chosen before it. -/
+theorem c19a_kruskal_forest (n : Nat) (es : List Edge) (wf : ∀ e ∈ es, e.1 < n ∧ e.2.1 < n) :
+    Forest (kruskal n es).1 ∧ ∀ f ∈ (kruskal n es).1, f ∈ es := by
+  unfold kruskal
+  by_cases hn : (n == 0) = true
+  · simp only [hn, if_true]; exact ⟨Forest.nil, fun f h => by cases h⟩
+  · simp only [hn]
+    obtain ⟨inv0, h0⟩ := c19a_uf_new n
+    obtain ⟨h1, h2, _, _⟩ := kruskalLoop_spec n (sortW (edgesByNode n es)) (UF.new n) [] 0 inv0
+      (fun a b => (h0 a b).trans (reach_nil a b).symm) Forest.nil
+      (fun e he => wf e (mem_edgesByNode.mp (mem_sortW.mp he)).2)
+    refine ⟨h1, fun f hf => ?_⟩
+    rcases h2 f hf with h | h
+    · cases h
+    · exact (mem_edgesByNode.mp (mem_sortW.mp h)).2
+
+/-- **P (Kruskal, spanning)**: when the run did not stop at the `n - 1` break, the forest connects
+exactly what the graph connects.  Missing for the full statement: a forest with `n - 1` edges on
+`n` nodes is connected (a counting argument), which is what justifies the break. -/
+theorem c19a_kruskal_spans_partial (n : Nat) (es : List Edge)
+    (wf : ∀ e ∈ es, e.1 < n ∧ e.2.1 < n) (hb : (kruskal n es).1.length ≠ n - 1) (a b : Nat) :
+    Reach (sym (kruskal n es).1) a b ↔ Reach (sym es) a b := by
+  constructor
+  · exact reach_sym_mono (c19a_kruskal_forest n es wf).2
+  · have key : ∀ f ∈ es, Reach (sym (kruskal n es).1) f.1 f.2.1 := by
+      unfold kruskal at hb ⊢
+      by_cases hn : (n == 0) = true
+      · intro f hf
+        have : n = 0 := by simpa using hn
+        exact absurd (wf f hf).1 (by omega)
+      · simp only [hn] at hb ⊢
+        obtain ⟨inv0, h0⟩ := c19a_uf_new n
+        obtain ⟨_, _, _, h4⟩ := kruskalLoop_spec n (sortW (edgesByNode n es)) (UF.new n) [] 0 inv0
+          (fun a b => (h0 a b).trans (reach_nil a b).symm) Forest.nil
+          (fun e he => wf e (mem_edgesByNode.mp (mem_sortW.mp he)).2)
+        intro f hf
+        exact h4 hb f (mem_sortW.mpr (mem_edgesByNode.mpr ⟨(wf f hf).1, hf⟩))
+    rintro ⟨c, hw⟩
+    induction hw with
+    | nil => exact Reach.refl _ _
+    | @snoc v z c w _ he ih =>
+      rcases mem_sym.mp he with h | h
+      · exact ih.trans (key _ h)
+      · exact ih.trans (reach_sym_symm (key _ h))
+
+/-! ### DFS -/
+
+theorem dfsLoop_sound (es : List Edge) (s : Nat) : ∀ (fuel : Nat) (seen : List Nat)
+    (st : List (Nat × List Nat)) (fin : List Nat),
+    (∀ x ∈ seen, Reach es s x) → (∀ fr ∈ st, fr.1 ∈ seen ∧ ∀ y ∈ fr.2, y ∈ adj es fr.1) →
+    (∀ x ∈ fin, x ∈ seen) → ∀ x ∈ dfsLoop es fuel seen st fin, Reach es s x := by
+  intro fuel
+  induction fuel with
+  | zero => intro seen st fin h1 _ h3 x hx; exact h1 x (h3 x (by simpa [dfsLoop] using hx))
+  | succ f ih =>
+    intro seen st fin h1 h2 h3 x hx
+    match st with
+    | [] => exact h1 x (h3 x (by simpa [dfsLoop] using hx))
+    | (u, []) :: st' =>
+      simp only [dfsLoop] at hx
+      refine ih seen st' (fin ++ [u]) h1 (fun fr h => h2 fr (List.mem_cons_of_mem _ h)) ?_ x hx
+      intro y hy
+      rcases List.mem_append.mp hy with h | h
+      · exact h3 y h
+      · have : y = u := by simpa using h
+        exact this ▸ (h2 (u, []) (by simp)).1
+    | (u, v :: vs) :: st' =>
+      have hu := h2 (u, v :: vs) (by simp)
+      simp only [dfsLoop] at hx
+      split at hx
+      · refine ih seen ((u, vs) :: st') fin h1 ?_ h3 x hx
+        intro fr hfr
+        rcases List.mem_cons.mp hfr with h | h
+        · subst h; exact ⟨hu.1, fun y hy => hu.2 y (List.mem_cons_of_mem _ hy)⟩
+        · exact h2 fr (List.mem_cons_of_mem _ h)
+      · have hv : Reach es s v := by
+          obtain ⟨w, hw⟩ := mem_adj.mp (hu.2 v (by simp))
+          exact (h1 u hu.1).step hw
+        refine ih (v :: seen) ((v, adj es v) :: (u, vs) :: st') fin ?_ ?_ ?_ x hx
+        · intro y hy
+          rcases List.mem_cons.mp hy with h | h
+          · exact h ▸ hv
+          · exact h1 y h
+        · intro fr hfr
+          rcases List.mem_cons.mp hfr with h | h
+          · subst h; exact ⟨List.mem_cons_self, fun y hy => hy⟩
+          · rcases List.mem_cons.mp h with h | h
+            · subst h
+              exact ⟨List.mem_cons_of_mem _ hu.1, fun y hy => hu.2 y (List.mem_cons_of_mem _ hy)⟩
+            · exact ⟨List.mem_cons_of_mem _ (h2 fr (List.mem_cons_of_mem _ h)).1,
+                (h2 fr (List.mem_cons_of_mem _ h)).2⟩
+        · intro y hy; exact List.mem_cons_of_mem _ (h3 y hy)
+
+/-- **F (DFS, soundness half)**: every node in the post-order returned by the model of `dfs` is
+reachable from the start — for every graph; completeness (every reachable node is finished) is
+validated per line against the certified BFS order, not yet proved. -/
+theorem c19a_dfs_sound (n : Nat) (es : List Edge) (s : Nat) :
+    ∀ x ∈ dfs n es s, Reach es s x := by
+  intro x hx
+  unfold dfs at hx
+  split at hx
+  · refine dfsLoop_sound es s _ [s] [(s, adj es s)] [] ?_ ?_ (by simp) x hx
+    · intro y hy
+      have : y = s := by simpa using hy
+      exact this ▸ Reach.refl es s
+    · intro fr hfr
+      have : fr = (s, adj es s) := by simpa using hfr
+      subst this
+      exact ⟨by simp, fun y hy => hy⟩
+  · cases hx
 
 /-! ### non-vacuity and concrete runs (kernel-evaluated) -/
 
